@@ -167,7 +167,8 @@ def transition_tests(chk, stage, groups, sample=None, per_stratum=2, strat=None,
             chk.sample({'stage': stage, 'cfg': g['cfg'], 'pre': g['pre'], 'op': g['lab'],
                         'concrete': res.get('run', {}).get('argv'), 'names': res.get('names'),
                         'observed_outputs': res.get('obs'), 'verdict': 'matches the specification'})
-    chk.stage_stats.setdefault(stage, {}).update({'generated_cases': total, 'executed': len(jobs), 'mismatches': nviol})
+    chk.stage_stats.setdefault(stage, {}).update({'generated_cases': total, 'executed': len(jobs), 'mismatches': nviol,
+                                                   'all_executed': len(picked) == total})
     return results
 
 
